@@ -1,2 +1,76 @@
-(* props/C14.v — placeholder until the theorems of this property are added. *)
-From Prophy Require Import Bytes Schema Layout Wire PcModel.
+(* props/C14.v — constant expressions denote one integer, the same in every back-end. *)
+From Coq Require Import ZArith List Bool Lia.
+From Prophy Require Import Schema Src PcExpr.
+Import ListNotations.
+Local Open Scope Z_scope.
+
+(* The two evaluators of the tool-chain (parse-time: parsers/prophy.py, model-time: calc.py)
+   declare the same precedence and associativity for every operator both know; the tables are
+   regenerated from the source on every run, so this is re-checked against what the code says now. *)
+Theorem C14_precedence_tables_agree :
+  forall o, In o [1; 2; 3; 4; 5; 6; 7] -> lookup prec_prophy o = lookup prec_calc o /\ lookup prec_prophy o <> None.
+Proof.
+  intros o H. cbn [In] in H.
+  repeat (destruct H as [<-|H]; [vm_compute; split; [reflexivity|discriminate]|]). destruct H.
+Qed.
+Print Assumptions C14_precedence_tables_agree.
+
+(* the language's precedence, as both tables state it: unary minus > shifts > * / > + -, all
+   binary operators left-associative *)
+Theorem C14_language_precedence :
+  lookup prec_prophy 1 = Some (0, 0) /\ lookup prec_prophy 2 = Some (0, 0) /\
+  lookup prec_prophy 3 = Some (1, 0) /\ lookup prec_prophy 4 = Some (1, 0) /\
+  lookup prec_prophy 5 = Some (2, 0) /\ lookup prec_prophy 6 = Some (2, 0) /\
+  lookup prec_prophy 7 = Some (3, 1).
+Proof. vm_compute. repeat split; reflexivity. Qed.
+Print Assumptions C14_language_precedence.
+
+(* hence both evaluators give every expression the same parse and the same integer *)
+Lemma parse_expr_tables t1 t2 : (forall o, lookup t1 o = lookup t2 o) ->
+  forall fuel minp ts, parse_expr t1 fuel minp ts = parse_expr t2 fuel minp ts.
+Proof.
+  intros H fuel. induction fuel as [|f IH]; intros minp ts; [reflexivity|].
+  cbn [parse_expr].
+  assert (Hatom : match ts with
+        | TNum z :: r => Some (ENum z, r)
+        | TName n :: r => Some (EVar n, r)
+        | TOp 2 :: r => match lookup t1 7 with
+            | Some (p, _) => match parse_expr t1 f p r with Some (e, r') => Some (ENeg e, r') | None => None end
+            | None => None end
+        | TLP :: r => match parse_expr t1 f 0 r with Some (e, TRP :: r') => Some (e, r') | _ => None end
+        | _ => None end =
+        match ts with
+        | TNum z :: r => Some (ENum z, r)
+        | TName n :: r => Some (EVar n, r)
+        | TOp 2 :: r => match lookup t2 7 with
+            | Some (p, _) => match parse_expr t2 f p r with Some (e, r') => Some (ENeg e, r') | None => None end
+            | None => None end
+        | TLP :: r => match parse_expr t2 f 0 r with Some (e, TRP :: r') => Some (e, r') | _ => None end
+        | _ => None end).
+  { destruct ts as [|[z|n|o| |] r]; try reflexivity.
+    - destruct o as [|[[|[]|]|[]|]|]; try reflexivity. rewrite H. destruct (lookup t2 7) as [[p a]|]; [|reflexivity]. rewrite IH. reflexivity.
+    - rewrite IH. reflexivity. }
+  rewrite Hatom. clear Hatom.
+  match goal with |- match ?a with _ => _ end = _ => destruct a as [[lhs rest]|]; [|reflexivity] end.
+  generalize (S (length rest)). intros g. revert lhs rest.
+  induction g as [|g' IHg]; intros lhs rest; [reflexivity|].
+  cbn [ploop]. destruct rest as [|[z|n|o| |] r]; try reflexivity.
+  rewrite H. destruct (lookup t2 o) as [[p assoc]|]; [|reflexivity].
+  destruct (p <? minp); [reflexivity|]. rewrite IH.
+  destruct (parse_expr t2 f (if assoc =? 0 then p + 1 else p) r) as [[rhs r']|]; [|reflexivity].
+  apply IHg.
+Qed.
+
+Theorem C14_evaluators_agree :
+  forall env ts, (forall o, lookup prec_prophy o = lookup prec_calc o) ->
+    eval_tokens prec_prophy env ts = eval_tokens prec_calc env ts.
+Proof.
+  intros env ts H. unfold eval_tokens, parse. rewrite (parse_expr_tables _ _ H). reflexivity.
+Qed.
+Print Assumptions C14_evaluators_agree.
+
+Example C14_shift_binds_tighter :
+  eval_tokens prec_prophy (fun _ => None) [TNum 1; TOp 1; TNum 2; TOp 5; TNum 3] = Some 17 /\
+  eval_tokens prec_calc (fun _ => None) [TNum 8; TOp 4; TNum 2] = Some 4 /\
+  eval_tokens prec_prophy (fun _ => None) [TOp 2; TNum 2; TOp 3; TLP; TNum 3; TOp 2; TNum 5; TRP] = Some 4.
+Proof. vm_compute. repeat split; reflexivity. Qed.
